@@ -1,4 +1,817 @@
+import ChemProofs.Props.C13
 import ChemProofs.Model.Convolution
+/-
+C11 — the fine-structure convolution enumerates exactly the isotopologue arrangements.
+
+Main results (all over exact rationals, all as *list equalities*, hence also `List.Perm`):
+ * `convolveWith_eq`      : `convolveWith d e t = keep t (prod d e)` (tensor product, then threshold filter)
+ * `prod_assoc`, `prod_unit_left/right`, `prod_comm` (Perm), `arrangementsOf_add`
+ * `pow_spec` / `pow_exact`: repeated squaring computes `arrangementsOf d n` (filtered when `n ≥ 2`)
+ * `conv_spec` / `conv_zero` / `prune_*` : the accumulation over entries computes `arrangements es`
+ * `sortByMass_perm`, `sortByMass_sorted`
+ * `isotopicConvolution_nil`, `isotopicConvolution_zero`
+-/
 namespace Chem
-theorem placeholder_C11 : True := trivial
+
+def NonNeg (d : Dist) : Prop := ∀ x ∈ d, 0 ≤ x.2
+def Unit01 (d : Dist) : Prop := ∀ x ∈ d, 0 ≤ x.2 ∧ x.2 ≤ 1
+
+/-- the "tensor product" of two distributions (outer loop over the second) -/
+def prod (d e : Dist) : Dist := e.flatMap fun b => d.map fun a => (a.1 + b.1, a.2 * b.2)
+
+/-- the threshold filter: keep the pairs whose abundance is at least `t` -/
+def keep (t : Rat) (l : Dist) : Dist := l.filter fun x => decide (t ≤ x.2)
+
+/-- the side condition under which pruning is harmless: non-negative abundances, and at most 1
+    when the threshold is positive.  `Good 0 = NonNeg`, and `Unit01 d → Good t d`. -/
+def Good (t : Rat) (d : Dist) : Prop := ∀ x ∈ d, 0 ≤ x.2 ∧ (0 < t → x.2 ≤ 1)
+
+theorem Good.of_unit01 {t : Rat} {d : Dist} (h : Unit01 d) : Good t d :=
+  fun x hx => ⟨(h x hx).1, fun _ => (h x hx).2⟩
+
+theorem Good.of_nonneg {d : Dist} (h : NonNeg d) : Good 0 d :=
+  fun x hx => ⟨h x hx, fun h0 => absurd h0 (lt_irrefl 0)⟩
+
+theorem Good.nonneg {t : Rat} {d : Dist} (h : Good t d) : NonNeg d := fun x hx => (h x hx).1
+
+/-! ### 1. `convolveWith` is the filtered tensor product -/
+
+theorem prod_nil (d : Dist) : prod d [] = [] := rfl
+theorem prod_cons (d : Dist) (b : Rat × Rat) (e : Dist) :
+    prod d (b :: e) = d.map (fun a => (a.1 + b.1, a.2 * b.2)) ++ prod d e := by
+  simp [prod]
+theorem prod_append (d e₁ e₂ : Dist) : prod d (e₁ ++ e₂) = prod d e₁ ++ prod d e₂ := by
+  simp [prod]
+
+theorem keep_nil (t : Rat) : keep t [] = [] := rfl
+theorem keep_append (t : Rat) (a b : Dist) : keep t (a ++ b) = keep t a ++ keep t b := by
+  simp [keep]
+theorem keep_keep (t : Rat) (a : Dist) : keep t (keep t a) = keep t a := by
+  simp [keep, List.filter_filter]
+theorem mem_keep {t : Rat} {a : Dist} {x : Rat × Rat} : x ∈ keep t a ↔ x ∈ a ∧ t ≤ x.2 := by
+  simp [keep]
+theorem keep_sublist (t : Rat) (a : Dist) : (keep t a).Sublist a := List.filter_sublist
+
+theorem convolveWith_eq (d e : Dist) (t : Rat) : convolveWith d e t = keep t (prod d e) := by
+  unfold convolveWith keep prod
+  rw [List.filter_flatMap]
+  congr 1
+  funext b
+  induction d with
+  | nil => rfl
+  | cons a d ih =>
+    simp only [List.filterMap_cons, List.map_cons, List.filter_cons]
+    by_cases h : a.2 * b.2 < t
+    · have h' : ¬ t ≤ a.2 * b.2 := not_le.mpr h
+      simp only [h, h', if_true, decide_false, ih]
+      simp
+    · have h' : t ≤ a.2 * b.2 := not_lt.mp h
+      simp only [h, h', if_false, decide_true, ih]
+      simp
+
+theorem keep_of_nonneg {d : Dist} (h : NonNeg d) : keep 0 d = d := by
+  unfold keep
+  rw [List.filter_eq_self]
+  intro x hx
+  simpa using h x hx
+
+theorem mem_prod {d e : Dist} {x : Rat × Rat} :
+    x ∈ prod d e ↔ ∃ a ∈ d, ∃ b ∈ e, x = (a.1 + b.1, a.2 * b.2) := by
+  simp only [prod, List.mem_flatMap, List.mem_map]
+  constructor
+  · rintro ⟨b, hb, a, ha, rfl⟩; exact ⟨a, ha, b, hb, rfl⟩
+  · rintro ⟨a, ha, b, hb, rfl⟩; exact ⟨b, hb, a, ha, rfl⟩
+
+theorem Good.prod {t : Rat} {d e : Dist} (hd : Good t d) (he : Good t e) : Good t (prod d e) := by
+  intro x hx
+  obtain ⟨a, ha, b, hb, rfl⟩ := mem_prod.mp hx
+  obtain ⟨a0, a1⟩ := hd a ha
+  obtain ⟨b0, b1⟩ := he b hb
+  refine ⟨mul_nonneg a0 b0, fun ht => ?_⟩
+  exact mul_le_one₀ (a1 ht) b0 (b1 ht)
+
+theorem Good.keep {t : Rat} {d : Dist} (hd : Good t d) (s : Rat) : Good t (keep s d) :=
+  fun x hx => hd x (mem_keep.mp hx).1
+
+theorem NonNeg.prod {d e : Dist} (hd : NonNeg d) (he : NonNeg e) : NonNeg (prod d e) :=
+  (Good.prod (Good.of_nonneg hd) (Good.of_nonneg he)).nonneg
+
+/-- **threshold 0 never prunes** -/
+theorem convolveWith_zero (d e : Dist) (hd : NonNeg d) (he : NonNeg e) :
+    convolveWith d e 0 = e.flatMap (fun b => d.map (fun a => (a.1 + b.1, a.2 * b.2))) := by
+  rw [convolveWith_eq, keep_of_nonneg (NonNeg.prod hd he)]; rfl
+
+/-- the product of non-negative distributions is non-negative -/
+theorem convolveWith_nonneg (d e : Dist) (t : Rat) (hd : NonNeg d) (he : NonNeg e) :
+    NonNeg (convolveWith d e t) := by
+  rw [convolveWith_eq]
+  exact fun x hx => NonNeg.prod hd he x (mem_keep.mp hx).1
+
+/-! ### 2. algebra of the tensor product -/
+
+theorem prod_unit_right (d : Dist) : prod d [(0, 1)] = d := by
+  simp [prod]
+
+theorem prod_unit_left (d : Dist) : prod [(0, 1)] d = d := by
+  induction d with
+  | nil => rfl
+  | cons b d ih => rw [prod_cons, ih]; simp
+
+theorem map_prod (a b : Dist) (z : Rat × Rat) :
+    (prod a b).map (fun x => (x.1 + z.1, x.2 * z.2)) = prod a (b.map fun x => (x.1 + z.1, x.2 * z.2)) := by
+  induction b with
+  | nil => rfl
+  | cons y b ihb =>
+    rw [prod_cons, List.map_append, ihb, List.map_cons, prod_cons]
+    congr 1
+    simp only [List.map_map]
+    apply List.map_congr_left
+    intro x _
+    simp [add_assoc, mul_assoc]
+
+/-- associativity holds as an equality of lists (same enumeration order) -/
+theorem prod_assoc (a b c : Dist) : prod (prod a b) c = prod a (prod b c) := by
+  induction c with
+  | nil => rfl
+  | cons z c ih => rw [prod_cons, prod_cons, prod_append, ih, map_prod]
+
+theorem map_flatMap_cons_perm {α β : Type} (l : List α) (g : α → β) (h : α → List β) :
+    (l.flatMap fun a => g a :: h a).Perm (l.map g ++ l.flatMap h) := by
+  induction l with
+  | nil => simp
+  | cons a l ih =>
+    simp only [List.flatMap_cons, List.map_cons, List.cons_append]
+    refine List.Perm.cons _ ?_
+    refine (List.Perm.append_left _ ih).trans ?_
+    rw [← List.append_assoc, ← List.append_assoc]
+    exact List.Perm.append_right _ List.perm_append_comm
+
+/-- commutativity, up to a permutation -/
+theorem prod_comm (d e : Dist) : (prod d e).Perm (prod e d) := by
+  induction e with
+  | nil => simp [prod]
+  | cons b e ih =>
+    rw [prod_cons]
+    have h : prod (b :: e) d =
+        d.flatMap fun a => (a.1 + b.1, a.2 * b.2) :: e.map (fun x => (x.1 + a.1, x.2 * a.2)) := by
+      simp [prod, add_comm, mul_comm]
+    rw [h]
+    refine List.Perm.symm ((map_flatMap_cons_perm d _ _).trans ?_)
+    exact List.Perm.append_left _ ih.symm
+
+theorem prod_perm_left {d d' : Dist} (e : Dist) (hd : d.Perm d') : (prod d e).Perm (prod d' e) := by
+  induction e with
+  | nil => simp [prod]
+  | cons b e ih => rw [prod_cons, prod_cons]; exact (hd.map _).append ih
+
+theorem prod_perm {d d' e e' : Dist} (hd : d.Perm d') (he : e.Perm e') : (prod d e).Perm (prod d' e') :=
+  (prod_perm_left e hd).trans
+    ((prod_comm d' e).trans ((prod_perm_left d' he).trans (prod_comm e' d')))
+
+theorem arrangementsOf_zero (d : Dist) : arrangementsOf d 0 = [(0, 1)] := rfl
+theorem arrangementsOf_succ (d : Dist) (n : Nat) :
+    arrangementsOf d (n + 1) = prod (arrangementsOf d n) d := rfl
+
+theorem arrangementsOf_one (d : Dist) : arrangementsOf d 1 = d := by
+  rw [arrangementsOf_succ, arrangementsOf_zero, prod_unit_left]
+
+/-- `m + n` atoms: an arrangement of `m` atoms combined with an arrangement of `n` atoms
+    (list equality; `Perm` follows) -/
+theorem arrangementsOf_add (d : Dist) (m n : Nat) :
+    arrangementsOf d (m + n) = prod (arrangementsOf d m) (arrangementsOf d n) := by
+  induction n with
+  | zero => rw [Nat.add_zero, arrangementsOf_zero, prod_unit_right]
+  | succ n ih => rw [← Nat.add_assoc, arrangementsOf_succ, ih, prod_assoc, ← arrangementsOf_succ]
+
+theorem arrangementsOf_add_perm (d : Dist) (m n : Nat) :
+    (arrangementsOf d (m + n)).Perm (prod (arrangementsOf d m) (arrangementsOf d n)) :=
+  (arrangementsOf_add d m n) ▸ List.Perm.refl _
+
+theorem arrangements_nil : arrangements [] = [(0, 1)] := rfl
+theorem arrangements_cons (d : Dist) (n : Nat) (rest : List (Dist × Nat)) :
+    arrangements ((d, n) :: rest) = prod (arrangements rest) (arrangementsOf d n) := by
+  simp [arrangements, prod, add_comm, mul_comm]
+
+theorem arrangements_single (d : Dist) (n : Nat) : arrangements [(d, n)] = arrangementsOf d n := by
+  rw [arrangements_cons, arrangements_nil, prod_unit_left]
+
+theorem Good.arrangementsOf {t : Rat} {d : Dist} (hd : Good t d) (n : Nat) : Good t (arrangementsOf d n) := by
+  induction n with
+  | zero =>
+    intro x hx
+    simp only [arrangementsOf_zero, List.mem_singleton] at hx
+    subst hx
+    exact ⟨by decide, fun _ => by decide⟩
+  | succ n ih => rw [arrangementsOf_succ]; exact ih.prod hd
+
+theorem Good.arrangements {t : Rat} {es : List (Dist × Nat)} (h : ∀ e ∈ es, Good t e.1) :
+    Good t (arrangements es) := by
+  induction es with
+  | nil =>
+    intro x hx
+    simp only [arrangements_nil, List.mem_singleton] at hx
+    subst hx
+    exact ⟨by decide, fun _ => by decide⟩
+  | cons e es ih =>
+    obtain ⟨d, n⟩ := e
+    rw [arrangements_cons]
+    exact (ih fun e he => h e (List.mem_cons_of_mem _ he)).prod ((h (d, n) (by simp)).arrangementsOf n)
+
+/-! ### pruning lemmas: filtering a factor first does not change the filtered product -/
+
+theorem keep_map_keep {t : Rat} {d : Dist} {b : Rat × Rat} (hd : Good t d)
+    (hb1 : 0 < t → b.2 ≤ 1) :
+    keep t ((keep t d).map fun a => (a.1 + b.1, a.2 * b.2)) = keep t (d.map fun a => (a.1 + b.1, a.2 * b.2)) := by
+  induction d with
+  | nil => rfl
+  | cons a d ih =>
+    have ihd := ih (fun x hx => hd x (List.mem_cons_of_mem _ hx))
+    obtain ⟨a0, a1⟩ := hd a (by simp)
+    by_cases h : t ≤ a.2
+    · have : keep t (a :: d) = a :: keep t d := by simp [keep, h]
+      rw [this, List.map_cons, List.map_cons]
+      unfold keep at ihd ⊢
+      simp only [List.filter_cons, ihd]
+    · have hk : keep t (a :: d) = keep t d := by simp [keep, h]
+      have hlt : ¬ t ≤ a.2 * b.2 := by
+        rw [not_le] at h ⊢
+        by_cases ht : 0 < t
+        · exact lt_of_le_of_lt (mul_le_of_le_one_right a0 (hb1 ht)) h
+        · exact absurd (lt_of_le_of_lt a0 h) ht
+      rw [hk, ihd, List.map_cons]
+      unfold keep
+      simp [hlt]
+
+theorem keep_prod_keep_left {t : Rat} {d e : Dist} (hd : Good t d) (he : Good t e) :
+    keep t (prod (keep t d) e) = keep t (prod d e) := by
+  induction e with
+  | nil => rfl
+  | cons b e ih =>
+    obtain ⟨b0, b1⟩ := he b (by simp)
+    rw [prod_cons, prod_cons, keep_append, keep_append, ih (fun x hx => he x (List.mem_cons_of_mem _ hx)),
+      keep_map_keep hd b1]
+
+theorem keep_prod_keep_right {t : Rat} {d e : Dist} (hd : Good t d) (he : Good t e) :
+    keep t (prod d (keep t e)) = keep t (prod d e) := by
+  induction e with
+  | nil => rfl
+  | cons b e ih =>
+    have ihe := ih (fun x hx => he x (List.mem_cons_of_mem _ hx))
+    obtain ⟨b0, b1⟩ := he b (by simp)
+    by_cases h : t ≤ b.2
+    · have : keep t (b :: e) = b :: keep t e := by simp [keep, h]
+      rw [this, prod_cons, prod_cons, keep_append, keep_append, ihe]
+    · have hk : keep t (b :: e) = keep t e := by simp [keep, h]
+      have hnil : keep t (d.map fun a => (a.1 + b.1, a.2 * b.2)) = [] := by
+        unfold keep
+        rw [List.filter_eq_nil_iff]
+        intro x hx
+        obtain ⟨a, ha, rfl⟩ := List.mem_map.mp hx
+        obtain ⟨a0, a1⟩ := hd a ha
+        rw [not_le] at h
+        have : a.2 * b.2 < t := by
+          by_cases ht : 0 < t
+          · exact lt_of_le_of_lt (mul_le_of_le_one_left b0 (a1 ht)) h
+          · exact absurd (lt_of_le_of_lt b0 h) ht
+        simpa using this
+      rw [hk, ihe, prod_cons, keep_append, hnil, List.nil_append]
+
+/-- `X` represents `A` either exactly or after thresholding -/
+def Rep (t : Rat) (X A : Dist) : Prop := X = A ∨ X = keep t A
+
+theorem Rep.keep_eq {t : Rat} {X A : Dist} (h : Rep t X A) : keep t X = keep t A := by
+  rcases h with rfl | rfl
+  · rfl
+  · exact keep_keep t A
+
+theorem Rep.good {t : Rat} {X A : Dist} (h : Rep t X A) (hA : Good t A) : Good t X := by
+  rcases h with rfl | rfl
+  · exact hA
+  · exact hA.keep t
+
+/-- the basic step: convolving two (possibly already pruned) representatives gives the pruned product -/
+theorem convolveWith_rep {t : Rat} {X Y A B : Dist} (hA : Good t A) (hB : Good t B)
+    (hX : Rep t X A) (hY : Rep t Y B) : convolveWith X Y t = keep t (prod A B) := by
+  have gX := hX.good hA
+  have gY := hY.good hB
+  rw [convolveWith_eq, ← keep_prod_keep_left gX gY, ← keep_prod_keep_right (gX.keep t) gY,
+    hX.keep_eq, hY.keep_eq, keep_prod_keep_right (hA.keep t) hB, keep_prod_keep_left hA hB]
+
+/-! ### 3. repeated squaring -/
+
+theorem Rep.refl (t : Rat) (A : Dist) : Rep t A A := Or.inl rfl
+theorem Rep.kept (t : Rat) (A : Dist) : Rep t (keep t A) A := Or.inr rfl
+
+/-- the squaring loop, entered with `buf = keep t (arr 2^j)` and `power = 2·2^j`, `2^j ≤ n`, leaves
+    `keep t (arr 2^k)` and `power = 2·2^k` with `2^k ≤ n < 2^(k+1)`; `n + 1 ≤ 2^j + fuel` is enough fuel -/
+theorem squareLoop_spec {t : Rat} {d : Dist} (hd : Good t d) (n : Nat) :
+    ∀ (fuel j : Nat), 2 ^ j ≤ n → n + 1 ≤ 2 ^ j + fuel →
+      ∃ k, j ≤ k ∧ 2 ^ k ≤ n ∧ n < 2 * 2 ^ k ∧
+        squareLoop t (n : Int) fuel (keep t (arrangementsOf d (2 ^ j))) (2 * ((2 ^ j : Nat) : Int)) =
+          (keep t (arrangementsOf d (2 ^ k)), 2 * ((2 ^ k : Nat) : Int)) := by
+  intro fuel
+  induction fuel with
+  | zero => intro j h1 h2; omega
+  | succ fuel ih =>
+    intro j h1 h2
+    unfold squareLoop
+    by_cases hle : 2 * ((2 ^ j : Nat) : Int) ≤ (n : Int)
+    · rw [if_pos hle]
+      have hp : 2 ^ (j + 1) = 2 ^ j + 2 ^ j := by rw [Nat.pow_succ]; omega
+      have hpos : 0 < 2 ^ j := Nat.pow_pos (by decide : 0 < 2)
+      obtain ⟨k, hjk, hk1, hk2, hk3⟩ := ih (j + 1) (by omega) (by omega)
+      refine ⟨k, by omega, hk1, hk2, ?_⟩
+      have hA := hd.arrangementsOf (t := t) (2 ^ j)
+      have hbuf : convolveWith (keep t (arrangementsOf d (2 ^ j))) (keep t (arrangementsOf d (2 ^ j))) t =
+          keep t (arrangementsOf d (2 ^ (j + 1))) := by
+        rw [convolveWith_rep hA hA (Rep.kept t _) (Rep.kept t _), hp, arrangementsOf_add]
+      have hpow : 2 * ((2 ^ j : Nat) : Int) * 2 = 2 * ((2 ^ (j + 1) : Nat) : Int) := by
+        rw [hp]; push_cast; omega
+      rw [hbuf, hpow]
+      exact hk3
+    · rw [if_neg hle]
+      exact ⟨j, Nat.le_refl _, h1, by omega, rfl⟩
+
+/-- a negative count behaves like 1 -/
+theorem convolvePow_neg (d : Dist) (t : Rat) (fuel : Nat) (n : Int) (hn : n < 0) :
+    convolvePow d t (fuel + 1) n = d := by
+  unfold convolvePow
+  have h0 : (n == 0) = false := by simp; omega
+  have h1 : (n == 1) = false := by simp; omega
+  have h2 : n.toNat = 0 := by omega
+  simp only [h0, h1, h2, Bool.false_eq_true, if_false]
+  unfold squareLoop
+  have h3 : ¬ (2 : Int) ≤ n := by omega
+  simp only [h3, if_false]
+  have h4 : ¬ (2 : Int) / 2 < n := by omega
+  simp only [h4, if_false]
+
+theorem convolvePow_zero (d : Dist) (t : Rat) (fuel : Nat) : convolvePow d t (fuel + 1) 0 = [(0, 1)] := by
+  unfold convolvePow; simp
+
+theorem convolvePow_one (d : Dist) (t : Rat) (fuel : Nat) : convolvePow d t (fuel + 1) 1 = d := by
+  unfold convolvePow; simp
+
+/-- **the power by repeated squaring is the arrangement list** (pruned at `t` when `n ≥ 2`;
+    for `n ≤ 1` the code returns `[(0,1)]` / the distribution itself, unpruned) -/
+theorem pow_spec {t : Rat} {d : Dist} (hd : Good t d) :
+    ∀ (n fuel : Nat), n + 2 ≤ fuel →
+      convolvePow d t fuel (n : Int) =
+        if n ≤ 1 then arrangementsOf d n else keep t (arrangementsOf d n) := by
+  intro n
+  induction n using Nat.strong_induction_on with
+  | _ n ih =>
+    intro fuel hfuel
+    obtain ⟨f, rfl⟩ : ∃ f, fuel = f + 1 := ⟨fuel - 1, by omega⟩
+    by_cases hn0 : n = 0
+    · subst hn0; simp [convolvePow_zero, arrangementsOf_zero]
+    by_cases hn1 : n = 1
+    · subst hn1; simp [convolvePow_one, arrangementsOf_one]
+    have hn2 : 2 ≤ n := by omega
+    rw [if_neg (by omega)]
+    unfold convolvePow
+    have h0 : ((n : Int) == 0) = false := by simp; omega
+    have h1 : ((n : Int) == 1) = false := by simp; omega
+    simp only [h0, h1, Bool.false_eq_true, if_false, Int.toNat_natCast]
+    -- first iteration of the loop
+    have hfirst : squareLoop t (n : Int) (n + 1) d 2 =
+        squareLoop t (n : Int) n (keep t (arrangementsOf d (2 ^ 1))) (2 * ((2 ^ 1 : Nat) : Int)) := by
+      conv => lhs; unfold squareLoop
+      have : (2 : Int) ≤ (n : Int) := by omega
+      rw [if_pos this]
+      have hd1 : Rep t d (arrangementsOf d 1) := by rw [arrangementsOf_one]; exact Rep.refl t d
+      have hA := hd.arrangementsOf (t := t) 1
+      rw [convolveWith_rep hA hA hd1 hd1, ← arrangementsOf_add]
+      rfl
+    obtain ⟨k, hk0, hk1, hk2, hk3⟩ := squareLoop_spec hd n n 1 (by simpa using hn2) (by simp; omega)
+    rw [hfirst, hk3]
+    simp only
+    have hdiv : 2 * ((2 ^ k : Nat) : Int) / 2 = ((2 ^ k : Nat) : Int) := by omega
+    rw [hdiv]
+    by_cases hlt : ((2 ^ k : Nat) : Int) < (n : Int)
+    · rw [if_pos hlt]
+      have hpos : 0 < 2 ^ k := Nat.pow_pos (by decide : 0 < 2)
+      have hsub : (n : Int) - ((2 ^ k : Nat) : Int) = ((n - 2 ^ k : Nat) : Int) := by omega
+      rw [hsub]
+      have hm := ih (n - 2 ^ k) (by omega) f (by omega)
+      have hrep : Rep t (convolvePow d t f ((n - 2 ^ k : Nat) : Int)) (arrangementsOf d (n - 2 ^ k)) := by
+        rw [hm]
+        split
+        · exact Rep.refl t _
+        · exact Rep.kept t _
+      rw [convolveWith_rep (hd.arrangementsOf _) (hd.arrangementsOf _) (Rep.kept t _) hrep,
+        ← arrangementsOf_add]
+      congr 2
+      omega
+    · rw [if_neg hlt]
+      have : 2 ^ k = n := by omega
+      rw [this]
+
+/-- **pow_exact** (threshold 0, non-negative abundances): list equality -/
+theorem pow_exact_eq {d : Dist} (hd : NonNeg d) (n fuel : Nat) (hfuel : n + 2 ≤ fuel) :
+    convolvePow d 0 fuel (n : Int) = arrangementsOf d n := by
+  rw [pow_spec (Good.of_nonneg hd) n fuel hfuel]
+  split
+  · rfl
+  · exact keep_of_nonneg ((Good.of_nonneg hd).arrangementsOf n).nonneg
+
+theorem pow_exact {d : Dist} (hd : NonNeg d) (n fuel : Nat) (hfuel : n + 2 ≤ fuel) :
+    (convolvePow d 0 fuel (n : Int)).Perm (arrangementsOf d n) :=
+  (pow_exact_eq hd n fuel hfuel) ▸ List.Perm.refl _
+
+/-! ### 4./5. the accumulation over the entries -/
+
+/-- the entries as the code sees them (counts as `Int`) -/
+def toEntries (es : List (Dist × Nat)) : List (Dist × Int) := es.map fun e => (e.1, (e.2 : Int))
+
+theorem Rep.sublist {t : Rat} {X A : Dist} (h : Rep t X A) : X.Sublist A := by
+  rcases h with rfl | rfl
+  · exact List.Sublist.refl _
+  · exact keep_sublist t A
+
+theorem pow_rep {t : Rat} {d : Dist} (hd : Good t d) (n : Nat) :
+    Rep t (convolvePow d t ((n : Int).toNat + 2) (n : Int)) (arrangementsOf d n) := by
+  rw [Int.toNat_natCast, pow_spec hd n (n + 2) (Nat.le_refl _)]
+  split
+  · exact Rep.refl t _
+  · exact Rep.kept t _
+
+/-- after the first entry (`i ≠ 0`) every further entry is convolved in and pruned -/
+theorem conv_acc {t : Rat} : ∀ (es : List (Dist × Nat)) (i : Nat) (out B : Dist), i ≠ 0 →
+    (∀ e ∈ es, Good t e.1) → Good t B → Rep t out B →
+    convolveEntries t (toEntries es) i out =
+      if es = [] then out else keep t (prod (arrangements es) B) := by
+  intro es
+  induction es with
+  | nil => intro i out B _ _ _ _; rfl
+  | cons e rest ih =>
+    intro i out B hi hes hB hout
+    obtain ⟨d, n⟩ := e
+    have hd : Good t d := hes (d, n) (by simp)
+    have hrest : ∀ e ∈ rest, Good t e.1 := fun e he => hes e (List.mem_cons_of_mem _ he)
+    have hi' : (i == 0) = false := by simp [hi]
+    rw [if_neg (by simp)]
+    simp only [toEntries, List.map_cons, convolveEntries, hi', Bool.false_eq_true, if_false]
+    have hA := hd.arrangementsOf (t := t) n
+    rw [convolveWith_rep hA hB (pow_rep hd n) hout]
+    have := ih (i + 1) (keep t (prod (arrangementsOf d n) B)) (prod (arrangementsOf d n) B)
+      (by omega) hrest (hA.prod hB) (Rep.kept t _)
+    simp only [toEntries] at this
+    rw [this, arrangements_cons, prod_assoc]
+    split
+    · next h => subst h; rw [arrangements_nil, prod_unit_left]
+    · rfl
+
+/-- one entry: the power itself -/
+theorem conv_single {t : Rat} {d : Dist} (hd : Good t d) (n : Nat) :
+    convolveEntries t (toEntries [(d, n)]) 0 [] =
+      if n ≤ 1 then arrangements [(d, n)] else keep t (arrangements [(d, n)]) := by
+  simp only [toEntries, List.map_cons, List.map_nil, convolveEntries, beq_self_eq_true, if_true]
+  rw [Int.toNat_natCast, pow_spec hd n (n + 2) (Nat.le_refl _), arrangements_single]
+
+/-- two or more entries: exactly the arrangements whose abundance reaches the threshold, in the
+    enumeration order of `arrangements` -/
+theorem conv_multi {t : Rat} {e : Dist × Nat} {rest : List (Dist × Nat)} (hne : rest ≠ [])
+    (hes : ∀ x ∈ e :: rest, Good t x.1) :
+    convolveEntries t (toEntries (e :: rest)) 0 [] = keep t (arrangements (e :: rest)) := by
+  obtain ⟨d, n⟩ := e
+  have hd : Good t d := hes (d, n) (by simp)
+  have hrest : ∀ e ∈ rest, Good t e.1 := fun e he => hes e (List.mem_cons_of_mem _ he)
+  simp only [toEntries, List.map_cons, convolveEntries, beq_self_eq_true, if_true]
+  have := conv_acc rest (0 + 1) _ _ (by omega) hrest (hd.arrangementsOf n) (pow_rep hd n)
+  simp only [toEntries] at this
+  rw [this, if_neg hne, arrangements_cons]
+
+/-- in every case the output is the arrangement list, either complete or pruned at `t` -/
+theorem conv_rep {t : Rat} {es : List (Dist × Nat)} (hne : es ≠ []) (hes : ∀ x ∈ es, Good t x.1) :
+    Rep t (convolveEntries t (toEntries es) 0 []) (arrangements es) := by
+  cases es with
+  | nil => exact absurd rfl hne
+  | cons e rest =>
+    by_cases hr : rest = []
+    · subst hr
+      obtain ⟨d, n⟩ := e
+      rw [conv_single (hes (d, n) (by simp)) n]
+      split
+      · exact Rep.refl t _
+      · exact Rep.kept t _
+    · rw [conv_multi hr hes]; exact Rep.kept t _
+
+/-- the degenerate case in which the code does not prune at all: a single entry with count ≤ 1 -/
+def Degenerate (es : List (Dist × Nat)) : Prop := ∃ d n, es = [(d, n)] ∧ n ≤ 1
+
+theorem conv_pruned {t : Rat} {es : List (Dist × Nat)} (hne : es ≠ []) (hes : ∀ x ∈ es, Good t x.1)
+    (hnd : ¬ Degenerate es) :
+    convolveEntries t (toEntries es) 0 [] = keep t (arrangements es) := by
+  cases es with
+  | nil => exact absurd rfl hne
+  | cons e rest =>
+    by_cases hr : rest = []
+    · subst hr
+      obtain ⟨d, n⟩ := e
+      rw [conv_single (hes (d, n) (by simp)) n, if_neg]
+      intro h; exact hnd ⟨d, n, rfl, h⟩
+    · exact conv_multi hr hes
+
+/-- **conv_zero**: with threshold 0 the accumulation is exactly the arrangement list (equality) -/
+theorem conv_zero_eq {es : List (Dist × Nat)} (hne : es ≠ []) (hes : ∀ x ∈ es, NonNeg x.1) :
+    convolveEntries 0 (es.map (fun e => (e.1, (e.2 : Int)))) 0 [] = arrangements es := by
+  have hg : ∀ x ∈ es, Good 0 x.1 := fun x hx => Good.of_nonneg (hes x hx)
+  rcases conv_rep hne hg with h | h
+  · exact h
+  · rw [keep_of_nonneg (Good.arrangements hg).nonneg] at h; exact h
+
+theorem conv_zero {es : List (Dist × Nat)} (hne : es ≠ []) (hes : ∀ x ∈ es, NonNeg x.1) :
+    (convolveEntries 0 (es.map (fun e => (e.1, (e.2 : Int)))) 0 []).Perm (arrangements es) :=
+  (conv_zero_eq hne hes) ▸ List.Perm.refl _
+
+/-- pruning never invents anything, and keeps multiplicities and order: the output is a sublist
+    of the arrangement list -/
+theorem prune_sublist {t : Rat} {es : List (Dist × Nat)} (hne : es ≠ []) (hes : ∀ x ∈ es, Unit01 x.1) :
+    (convolveEntries t (es.map (fun e => (e.1, (e.2 : Int)))) 0 []).Sublist (arrangements es) :=
+  (conv_rep hne fun x hx => Good.of_unit01 (hes x hx)).sublist
+
+/-- **prune_sound**, membership half (holds always) -/
+theorem prune_sound_mem {t : Rat} {es : List (Dist × Nat)} (hne : es ≠ []) (hes : ∀ x ∈ es, Unit01 x.1)
+    (x : Rat × Rat) (hx : x ∈ convolveEntries t (es.map (fun e => (e.1, (e.2 : Int)))) 0 []) :
+    x ∈ arrangements es :=
+  (prune_sublist hne hes).subset hx
+
+/-- **prune_sound**, threshold half: needs the entries not to be a single element with count ≤ 1,
+    because in that case the code returns the isotope list (or `[(0,1)]`) without pruning
+    (counterexample below); the final `ignore_below` of `isotopic_convolution` filters again. -/
+theorem prune_sound_partial {t : Rat} {es : List (Dist × Nat)} (hne : es ≠ []) (hes : ∀ x ∈ es, Unit01 x.1)
+    (hnd : ¬ Degenerate es)
+    (x : Rat × Rat) (hx : x ∈ convolveEntries t (es.map (fun e => (e.1, (e.2 : Int)))) 0 []) :
+    t ≤ x.2 ∧ x ∈ arrangements es := by
+  have := conv_pruned hne (fun x hx => Good.of_unit01 (t := t) (hes x hx)) hnd
+  simp only [toEntries] at this
+  rw [this] at hx
+  exact ⟨(mem_keep.mp hx).2, (mem_keep.mp hx).1⟩
+
+/-- **prune_complete**: an arrangement that reaches the threshold is never lost on the way -/
+theorem prune_complete {t : Rat} {es : List (Dist × Nat)} (hne : es ≠ []) (hes : ∀ x ∈ es, Unit01 x.1)
+    (x : Rat × Rat) (hx : x ∈ arrangements es) (ht : t ≤ x.2) :
+    x ∈ convolveEntries t (es.map (fun e => (e.1, (e.2 : Int)))) 0 [] := by
+  have h := (conv_rep hne fun x hx => Good.of_unit01 (t := t) (hes x hx)).keep_eq
+  have : x ∈ keep t (arrangements es) := mem_keep.mpr ⟨hx, ht⟩
+  rw [← h] at this
+  exact (mem_keep.mp this).1
+
+/-- with multiplicities (always): the qualifying part of the output is the qualifying part of the
+    arrangement list -/
+theorem prune_filter {t : Rat} {es : List (Dist × Nat)} (hne : es ≠ []) (hes : ∀ x ∈ es, Unit01 x.1) :
+    (convolveEntries t (es.map (fun e => (e.1, (e.2 : Int)))) 0 []).filter (fun x => decide (t ≤ x.2)) =
+      (arrangements es).filter (fun x => decide (t ≤ x.2)) :=
+  (conv_rep hne fun x hx => Good.of_unit01 (t := t) (hes x hx)).keep_eq
+
+/-- with multiplicities, outside the degenerate case: the output *is* the filtered arrangement list -/
+theorem prune_perm_partial {t : Rat} {es : List (Dist × Nat)} (hne : es ≠ []) (hes : ∀ x ∈ es, Unit01 x.1)
+    (hnd : ¬ Degenerate es) :
+    (convolveEntries t (es.map (fun e => (e.1, (e.2 : Int)))) 0 []).Perm
+      ((arrangements es).filter (fun x => decide (t ≤ x.2))) := by
+  have := conv_pruned hne (fun x hx => Good.of_unit01 (t := t) (hes x hx)) hnd
+  simp only [toEntries] at this
+  rw [this]; exact List.Perm.refl _
+
+/-! ### 6. the sort -/
+
+theorem sortByMass_perm (l : Dist) : (sortByMass l).Perm l := List.mergeSort_perm _ _
+
+theorem sortByMass_sorted (l : Dist) : (sortByMass l).Pairwise (fun a b => a.1 ≤ b.1) := by
+  have h := List.pairwise_mergeSort (le := fun (a b : Rat × Rat) => decide (a.1 ≤ b.1))
+    (fun a b c hab hbc => by
+      simp only [decide_eq_true_eq] at hab hbc ⊢
+      exact le_trans hab hbc)
+    (fun a b => by
+      simp only [Bool.or_eq_true, decide_eq_true_eq]
+      exact le_total a.1 b.1) l
+  exact h.imp (fun hab => by simpa using hab)
+
+/-! ### 7. the whole function -/
+
+/-- empty composition: the empty list, no failure -/
+theorem isotopicConvolution_nil (z : Int) (c t : Rat) : isotopicConvolution [] z c t = some [] := by
+  simp [isotopicConvolution, convolveEntries, sortByMass, Pattern.normalize, Pattern.ignoreBelow]
+
+/-- total abundance of a distribution -/
+def mass (d : Dist) : Rat := (d.map (·.2)).sum
+
+theorem mass_append (a b : Dist) : mass (a ++ b) = mass a + mass b := by simp [mass]
+
+theorem mass_map_op (d : Dist) (b : Rat × Rat) :
+    mass (d.map fun a => (a.1 + b.1, a.2 * b.2)) = mass d * b.2 := by
+  induction d with
+  | nil => simp [mass]
+  | cons a d ih =>
+    simp only [mass, List.map_cons, List.sum_cons] at ih ⊢
+    rw [ih]; ring
+
+theorem mass_prod (d e : Dist) : mass (prod d e) = mass d * mass e := by
+  induction e with
+  | nil => simp [mass, prod]
+  | cons b e ih =>
+    rw [prod_cons, mass_append, ih, mass_map_op]
+    simp only [mass, List.map_cons, List.sum_cons]
+    ring
+
+theorem mass_arrangementsOf (d : Dist) (n : Nat) : mass (arrangementsOf d n) = mass d ^ n := by
+  induction n with
+  | zero => simp [mass, arrangementsOf]
+  | succ n ih => rw [arrangementsOf_succ, mass_prod, ih, pow_succ]
+
+/-- the total probability of the arrangement list is the product of the per-element totals -/
+theorem mass_arrangements (es : List (Dist × Nat)) :
+    mass (arrangements es) = (es.map fun e => mass e.1 ^ e.2).prod := by
+  induction es with
+  | nil => simp [mass, arrangements]
+  | cons e es ih =>
+    obtain ⟨d, n⟩ := e
+    rw [arrangements_cons, mass_prod, ih, mass_arrangementsOf, List.map_cons, List.prod_cons, mul_comm]
+
+theorem mass_arrangements_pos {es : List (Dist × Nat)} (h : ∀ e ∈ es, 0 < mass e.1) :
+    0 < mass (arrangements es) := by
+  rw [mass_arrangements]
+  induction es with
+  | nil => simp
+  | cons e es ih =>
+    rw [List.map_cons, List.prod_cons]
+    exact mul_pos (pow_pos (h e (by simp)) _) (ih fun x hx => h x (List.mem_cons_of_mem _ hx))
+
+theorem mass_perm {a b : Dist} (h : a.Perm b) : mass a = mass b := (h.map _).sum_eq
+
+/-- the charge step is monotone in the mass -/
+theorem chargedMz_mono (z : Int) (c : Rat) {m m' : Rat} (h : m ≤ m') :
+    chargedMz m z c ≤ chargedMz m' z c := by
+  unfold chargedMz
+  split
+  · exact h
+  · exact div_le_div_of_nonneg_right (by linarith) (Nat.cast_nonneg _)
+
+/-- the peak list the function produces at threshold 0 -/
+def zeroPeaks (es : List (Dist × Nat)) (z : Int) (c : Rat) : List Peak :=
+  (sortByMass (arrangements es)).map fun x =>
+    { mz := chargedMz x.1 z c, int := x.2 / mass (arrangements es) }
+
+theorem total_map_peak (l : Dist) (f : Rat → Rat) (k : Rat) :
+    total (l.map fun x => ({ mz := f x.1, int := x.2 * k } : Peak)) = mass l * k := by
+  induction l with
+  | nil => simp [total, intensities, mass]
+  | cons a l ih =>
+    rw [List.map_cons, total_cons, ih]
+    simp only [mass, List.map_cons, List.sum_cons]
+    ring
+
+/-- **the whole function at threshold 0**, for a non-empty composition of non-negative isotope
+    distributions with positive total probability: the result is the mass-sorted arrangement list,
+    charge-converted, with abundances divided by their sum. -/
+theorem isotopicConvolution_zero_eq {es : List (Dist × Nat)} (hne : es ≠ []) (hes : ∀ x ∈ es, NonNeg x.1)
+    (hpos : 0 < mass (arrangements es)) (z : Int) (c : Rat) :
+    isotopicConvolution (es.map (fun e => (e.1, (e.2 : Int)))) z c 0 = some (zeroPeaks es z c) := by
+  have hS := hpos.ne'
+  have hA : NonNeg (arrangements es) :=
+    (Good.arrangements fun x hx => Good.of_nonneg (hes x hx)).nonneg
+  have hsortmass : mass (sortByMass (arrangements es)) = mass (arrangements es) :=
+    mass_perm (sortByMass_perm _)
+  have hsortne : sortByMass (arrangements es) ≠ [] := by
+    intro h
+    rw [h] at hsortmass
+    exact hS (by rw [← hsortmass]; rfl)
+  unfold isotopicConvolution
+  rw [conv_zero_eq hne hes]
+  simp only
+  -- the un-normalised peaks
+  have hp0 : (List.map (fun x : Rat × Rat => match x with
+        | (m, a) => ({ mz := chargedMz m z c, int := a } : Peak)) (sortByMass (arrangements es))) =
+      (sortByMass (arrangements es)).map fun x => ({ mz := chargedMz x.1 z c, int := x.2 * 1 } : Peak) := by
+    apply List.map_congr_left
+    intro x _
+    simp
+  rw [hp0]
+  generalize hout : sortByMass (arrangements es) = out at *
+  set peaks0 : List Peak := out.map fun x => ({ mz := chargedMz x.1 z c, int := x.2 * 1 } : Peak) with hpk
+  have ht0 : total peaks0 = mass (arrangements es) := by
+    rw [hpk, total_map_peak out (fun m => chargedMz m z c) 1, hsortmass, mul_one]
+  have hne0 : peaks0 ≠ [] := by
+    rw [hpk]; intro h; exact hsortne (List.map_eq_nil_iff.mp h)
+  rw [normalize_some _ hne0 (by rw [ht0]; exact hS)]
+  simp only [Pattern.ignoreBelow, Pattern.scaleBy, ht0]
+  -- the second filter keeps everything
+  have hmem : ∀ x ∈ out, x ∈ arrangements es := by
+    intro x hx
+    rw [← hout] at hx
+    exact (sortByMass_perm _).subset hx
+  have hfilter : (peaks0.map fun q => ({ q with int := q.int * (1 / mass (arrangements es)) } : Peak)).filter
+      (fun q => decide (0 ≤ q.int)) =
+      out.map fun x => ({ mz := chargedMz x.1 z c, int := x.2 * (1 / mass (arrangements es)) } : Peak) := by
+    rw [hpk, List.map_map]
+    rw [List.filter_eq_self.mpr]
+    · apply List.map_congr_left; intro x _; simp
+    · intro q hq
+      obtain ⟨x, hx, rfl⟩ := List.mem_map.mp hq
+      have := hA x (hmem x hx)
+      simp only [Function.comp, decide_eq_true_eq]
+      exact mul_nonneg (by simpa using this) (by rw [one_div]; exact inv_nonneg.mpr hpos.le)
+  rw [hfilter]
+  set peaks1 : List Peak :=
+    out.map fun x => ({ mz := chargedMz x.1 z c, int := x.2 * (1 / mass (arrangements es)) } : Peak) with hpk1
+  have ht1 : total peaks1 = 1 := by
+    rw [hpk1, total_map_peak out (fun m => chargedMz m z c), hsortmass]
+    field_simp
+  have hne1 : peaks1 ≠ [] := by
+    rw [hpk1]; intro h; exact hsortne (List.map_eq_nil_iff.mp h)
+  rw [normalize_some _ hne1 (by simp only [ht1]; exact one_ne_zero)]
+  simp only [Pattern.scaleBy, ht1, Option.map_some, Option.some.injEq]
+  rw [hpk1, List.map_map, zeroPeaks, hout]
+  apply List.map_congr_left
+  intro x _
+  simp [div_eq_mul_inv]
+
+/-- consequences in the form of the property: total 1, sorted by m/z (for every charge, including 0),
+    and the peaks are a permutation of the charge-converted, renormalised arrangement list -/
+theorem isotopicConvolution_zero {es : List (Dist × Nat)} (hne : es ≠ []) (hes : ∀ x ∈ es, NonNeg x.1)
+    (hpos : 0 < mass (arrangements es)) (z : Int) (c : Rat) :
+    ∃ peaks, isotopicConvolution (es.map (fun e => (e.1, (e.2 : Int)))) z c 0 = some peaks ∧
+      total peaks = 1 ∧
+      peaks.Pairwise (fun p q => p.mz ≤ q.mz) ∧
+      peaks.Perm ((arrangements es).map fun x =>
+        ({ mz := chargedMz x.1 z c, int := x.2 / mass (arrangements es) } : Peak)) ∧
+      (peaks.map (·.int)).Perm ((arrangements es).map fun x => x.2 / mass (arrangements es)) := by
+  refine ⟨zeroPeaks es z c, isotopicConvolution_zero_eq hne hes hpos z c, ?_, ?_, ?_, ?_⟩
+  · have := total_map_peak (sortByMass (arrangements es)) (fun m => chargedMz m z c)
+      (1 / mass (arrangements es))
+    simp only [← div_eq_mul_one_div] at this
+    rw [zeroPeaks, this, mass_perm (sortByMass_perm _)]
+    exact div_self hpos.ne'
+  · rw [zeroPeaks, List.pairwise_map]
+    exact (sortByMass_sorted _).imp fun h => chargedMz_mono z c h
+  · exact (sortByMass_perm _).map _
+  · have := ((sortByMass_perm (arrangements es)).map fun x =>
+      ({ mz := chargedMz x.1 z c, int := x.2 / mass (arrangements es) } : Peak)).map (·.int)
+    simpa [zeroPeaks, List.map_map, Function.comp_def] using this
+
+/-- the same with the positivity of the total derived from the isotope distributions -/
+theorem isotopicConvolution_zero' {es : List (Dist × Nat)} (hne : es ≠ []) (hes : ∀ x ∈ es, NonNeg x.1)
+    (hpos : ∀ e ∈ es, 0 < mass e.1) (z : Int) (c : Rat) :
+    ∃ peaks, isotopicConvolution (es.map (fun e => (e.1, (e.2 : Int)))) z c 0 = some peaks ∧
+      total peaks = 1 ∧ peaks.Pairwise (fun p q => p.mz ≤ q.mz) ∧
+      (peaks.map (·.int)).Perm ((arrangements es).map fun x => x.2 / mass (arrangements es)) := by
+  obtain ⟨peaks, h1, h2, h3, _, h5⟩ := isotopicConvolution_zero hne hes (mass_arrangements_pos hpos) z c
+  exact ⟨peaks, h1, h2, h3, h5⟩
+
+/-! ### 8. non-vacuity -/
+
+def demoD : Dist := [(1, 3/4), (2, 1/4)]
+def demoE : Dist := [(10, 1/2), (11, 1/2)]
+
+example : NonNeg demoD ∧ Unit01 demoD ∧ Unit01 demoE := by
+  simp only [NonNeg, Unit01, demoD, demoE]; decide +kernel
+
+-- threshold 0: the power is the arrangement list, verbatim (8 and 32 arrangements)
+example : convolvePow demoD 0 5 3 = arrangementsOf demoD 3 := by decide +kernel
+example : convolvePow demoD 0 7 5 = arrangementsOf demoD 5 := by decide +kernel
+example : (arrangementsOf demoD 3).length = 8 ∧ (arrangementsOf demoD 5).length = 32 := by decide +kernel
+example : arrangementsOf demoD 2 = [(2, 9/16), (3, 3/16), (3, 3/16), (4, 1/16)] := by decide +kernel
+
+-- a positive threshold prunes exactly the arrangements below it
+example : convolvePow demoD (1/10) 5 3 = (arrangementsOf demoD 3).filter (fun x => decide (1/10 ≤ x.2)) := by
+  decide +kernel
+example : (convolvePow demoD (1/10) 5 3).length = 4 := by decide +kernel
+
+-- two entries
+example : convolveEntries (1/10) [(demoD, 3), (demoE, 2)] 0 [] =
+    (arrangements [(demoD, 3), (demoE, 2)]).filter (fun x => decide (1/10 ≤ x.2)) := by decide +kernel
+example : (convolveEntries (1/10) [(demoD, 3), (demoE, 2)] 0 []).length = 4 ∧
+    (arrangements [(demoD, 3), (demoE, 2)]).length = 32 := by decide +kernel
+
+-- the degenerate case: a single entry with count 1 is returned unpruned, so `(2, 1/4)` survives a
+-- threshold of 1/2 (this is why `prune_sound_partial` excludes it)
+example : (2, 1/4) ∈ convolveEntries (1/2) [(demoD, 1)] 0 [] := by decide +kernel
+
+-- negative count behaves like 1
+example : convolvePow demoD 0 3 (-4) = demoD := by decide +kernel
+
+-- the whole function on a concrete input (threshold 0, charge 1, carrier mass 0): hypotheses of
+-- `isotopicConvolution_zero_eq` are satisfiable and its conclusion evaluates to the expected peaks
+theorem demo_sort : sortByMass [(2, 9/16), (3, 3/16), (3, 3/16), (4, 1/16)] =
+    [(2, 9/16), (3, 3/16), (3, 3/16), (4, 1/16)] := by
+  norm_num [sortByMass, List.mergeSort, List.MergeSort.Internal.splitInTwo, List.merge]
+
+example : isotopicConvolution [(demoD, 2)] 1 0 0 =
+    some [⟨2, 9/16⟩, ⟨3, 3/16⟩, ⟨3, 3/16⟩, ⟨4, 1/16⟩] := by
+  have h := isotopicConvolution_zero_eq (es := [(demoD, 2)]) (by simp)
+    (by simp only [NonNeg, demoD]; decide +kernel) (by simp only [mass, demoD]; decide +kernel) 1 0
+  have ha : arrangements [(demoD, 2)] = [(2, 9/16), (3, 3/16), (3, 3/16), (4, 1/16)] := by decide +kernel
+  have hm : mass [(2, 9/16), (3, 3/16), (3, 3/16), (4, 1/16)] = 1 := by decide +kernel
+  rw [zeroPeaks, ha, demo_sort, hm] at h
+  refine Eq.trans h ?_
+  decide +kernel
+
+example : ∃ peaks, isotopicConvolution [(demoD, 3), (demoE, 2)] (-2) 1 0 = some peaks ∧ total peaks = 1 ∧
+    peaks.Pairwise (fun p q => p.mz ≤ q.mz) := by
+  obtain ⟨p, h1, h2, h3, _⟩ := isotopicConvolution_zero' (es := [(demoD, 3), (demoE, 2)]) (by simp)
+    (by simp only [NonNeg, demoD, demoE]; decide +kernel)
+    (by simp only [mass, demoD, demoE]; decide +kernel) (-2) 1
+  exact ⟨p, h1, h2, h3⟩
+
 end Chem
